@@ -2,16 +2,28 @@
 use std::io::Cursor;
 use std::io::{self, Read, Write};
 #[cfg(not(windows))]
+#[cfg(not(attohttpc_verif))]
 use std::net::Shutdown;
+#[cfg(not(attohttpc_verif))]
 use std::net::TcpStream;
 #[cfg(windows)]
 use std::os::{
     raw::c_int,
     windows::{io::AsRawSocket, raw::SOCKET},
 };
+#[cfg(not(attohttpc_verif))]
 use std::sync::mpsc;
+#[cfg(not(attohttpc_verif))]
 use std::thread;
+#[cfg(not(attohttpc_verif))]
 use std::time::Instant;
+#[cfg(attohttpc_verif)]
+use attosim::{
+    mpsc,
+    net::{Shutdown, TcpStream},
+    thread,
+    time::Instant,
+};
 
 use base64::Engine;
 
